@@ -87,6 +87,36 @@ export async function run(ctx) {
       const res = await ctx.compiler.compile({ ...base, cpu_budget_ms: 10000 });
       runs.push({ how: `server#${k}`, order: null, fp: fingerprint(res), outcome: res.outcome });
     }
+    // (3) the same worker thread, after other revisions of the same files (doc comments edited, added,
+    // removed, declarations shifted) and an unrelated project: thread-local / per-process state must
+    // not leak from an earlier compilation into this one
+    {
+      const rev = (text, salt) => {
+        let t = text.replace(/\/\*\*([^*]|\*(?!\/))*\*\//g, (m) => (rng.chance(0.4) ? "" : `/** ${salt} ${m.slice(3, -2).trim()} */`));
+        t = t.replace(/^(export )?(type|interface) /gm, (m) => (rng.chance(0.3) ? `/** ${salt} added */ ${m}` : m));
+        return (rng.chance(0.5) ? `// ${salt}\n` : "") + t;
+      };
+      const rev1 = Object.fromEntries(Object.entries(p.files).map(([k, v]) => [k, rev(v, "rev1")]));
+      const rev2 = Object.fromEntries(Object.entries(p.files).map(([k, v]) => [k, rev(v, "rev2")]));
+      const other = { "entry.ts": "/** unrelated */ type U = { /** u */ a: string };\nexport const P = parse.buildParsers<{ U: U }>();\n" };
+      const res = await ctx.compiler.compile({ ...base, warmup: [rev1, other, rev2], cpu_budget_ms: 20000 });
+      runs.push({ how: "same-thread-after-other-revisions", order: null, fp: fingerprint(res), outcome: res.outcome });
+      // and the edited revision itself, fresh vs after the original
+      const r2fresh = await ctx.compiler.compile({ ...base, files: rev1, cpu_budget_ms: 10000 });
+      const r2after = await ctx.compiler.compile({ ...base, files: rev1, warmup: [p.files], cpu_budget_ms: 20000 });
+      const fa = fingerprint(r2fresh),
+        fb = fingerprint(r2after);
+      ctx.judged();
+      ctx.count("same_thread_histories", 2);
+      if (!["died", "hang", "timeout", "worker_lost"].includes(r2fresh.outcome) && sha(fa.kind + "\n" + fa.text) !== sha(fb.kind + "\n" + fb.text)) {
+        ctx.violation({
+          signature: `depends-on-earlier-compilation|${describeDiff(fa, fb)}|${kind}`,
+          clause: "outputs-differ",
+          detail: `the edited revision compiled on a fresh thread and on a thread that compiled the original first give different results\n--- fresh ---\n${fa.text.slice(0, 600)}\n--- after the original ---\n${fb.text.slice(0, 600)}`,
+          replay: { kind: "history", req: { ...base, files: rev1 }, warmup: [p.files] },
+        });
+      }
+    }
     ctx.count("stream:" + kind);
     ctx.count("outcome:" + runs[0].outcome);
     if (["died", "hang", "timeout", "worker_lost"].includes(runs[0].outcome)) {
@@ -117,6 +147,11 @@ export async function run(ctx) {
 }
 
 export async function replay(ctx, c) {
+  if (c.kind === "history") {
+    const a = fingerprint(await ctx.compiler.compile({ ...c.req }));
+    const b = fingerprint(await ctx.compiler.compile({ ...c.req, warmup: c.warmup }));
+    return { violated: sha(a.kind + "\n" + a.text) !== sha(b.kind + "\n" + b.text), diff: describeDiff(a, b) };
+  }
   const digests = new Map();
   for (let k = 0; k < (c.procs || 24); k++) {
     const order = c.orders[k % c.orders.length];
